@@ -13,6 +13,7 @@ from linear_operator.operators._linear_operator import IndexType, LinearOperator
 from linear_operator.operators.block_diag_linear_operator import BlockDiagLinearOperator
 from linear_operator.operators.dense_linear_operator import DenseLinearOperator
 from linear_operator.operators.triangular_linear_operator import TriangularLinearOperator
+from linear_operator.utils.broadcasting import _matmul_broadcast_shape
 from linear_operator.utils.memoize import cached
 
 
@@ -164,6 +165,8 @@ class DiagLinearOperator(TriangularLinearOperator):
         if inv_quad_rhs is None:
             rhs_batch_shape = torch.Size()
         else:
+            # refuse what (dense) matmul refuses: no silent broadcasting of a size-1 inner dimension
+            _matmul_broadcast_shape(self.shape, inv_quad_rhs.shape)
             rhs_batch_shape = inv_quad_rhs.shape[1 + self.batch_dim :]
 
         if inv_quad_rhs is None:
@@ -195,6 +198,10 @@ class DiagLinearOperator(TriangularLinearOperator):
         self: Float[LinearOperator, "*batch M N"],
         other: Union[Float[Tensor, "*batch2 N P"], Float[Tensor, "*batch2 N"], Float[LinearOperator, "*batch2 N P"]],
     ) -> Union[Float[Tensor, "... M P"], Float[Tensor, "... M"], Float[LinearOperator, "... M P"]]:
+        # refuse what (dense) matmul refuses: the elementwise products below would silently broadcast
+        # a size-1 inner dimension or a 0-d operand
+        _matmul_broadcast_shape(self.shape, other.shape)
+
         if isinstance(other, Tensor):
             diag = self._diag if other.ndim == 1 else self._diag.unsqueeze(-1)
             return diag * other
